@@ -297,6 +297,29 @@ def search (g : Graph) : Nat → List String → String → Bool
 /-- `g.checkCycle()` (the iteration order over the start vertices only selects *which* cycle is reported) -/
 def hasCycle (g : Graph) : Bool := g.any fun e => search g g.length [e.1] e.1
 
+/-! ### the cycle that is reported
+
+`checkCycle` and `searchCycle` range over `utils.MapKeys(…)`, i.e. over the *sorted* names, "to render a predictable
+error message".  `cyclePath` is the list printed after "dependency cycle detected:" (`path[i:]` followed by the name
+that closes the cycle). -/
+
+def insertSorted (x : String) : List String → List String
+  | [] => [x]
+  | y :: r => if x < y then x :: y :: r else y :: insertSorted x r
+
+/-- `slices.Sort` of a list of distinct names -/
+def sortStr (l : List String) : List String := l.foldr insertSorted []
+
+/-- `searchCycle(path, v)` with its result: `none` = nil, `some cyc` = the cycle in the error message -/
+def searchPath (g : Graph) : Nat → List String → String → Option (List String)
+  | 0, _, _ => none
+  | fuel + 1, path, v => (sortStr (g.children v)).findSome? fun c =>
+      if path.contains c then some (path.dropWhile (fun x => x != c) ++ [c]) else searchPath g fuel (path ++ [c]) c
+
+/-- `g.checkCycle()` with the cycle it reports -/
+def cyclePath (g : Graph) : Option (List String) :=
+  (sortStr (g.map Prod.fst)).findSome? fun v => searchPath g g.length [v] v
+
 /-- `graph.CheckCycle(project)` -/
 def checkCycleProj (p : Proj) : Option Err :=
   match newGraph p with
